@@ -77,14 +77,14 @@ Proof.
   rewrite update_ivt_set_app, total_len_set_app, app_len_set_app by assumption. reflexivity.
 Qed.
 
-Lemma hmac_insert_between_set_app x a hm im off : hmac_insert_between (set_app x a) hm im off = hmac_insert_between x hm im off.
-Proof. revert off; induction im as [|s t IH]; intros off; simpl; [reflexivity|]. now rewrite IH. Qed.
+Lemma hmac_insert_between_set_app x a hm im off b : hmac_insert_between (set_app x a) hm im off b = hmac_insert_between x hm im off b.
+Proof. revert off b; induction im as [|s t IH]; intros off b; simpl; [reflexivity|]. now rewrite IH. Qed.
 Lemma hmac_insert_split_set_app x a hm im off : hmac_insert_split (set_app x a) hm im off = hmac_insert_split x hm im off.
 Proof. revert off; induction im as [|s t IH]; intros off; simpl; [reflexivity|]. now rewrite IH. Qed.
-Lemma finalize_set_app k c x a im dts : finalize k c (set_app x a) im dts = finalize k c x im dts.
+Lemma finalize_set_app k c x a im dts : length a = length (m_app x) -> finalize k c (set_app x a) im dts = finalize k c x im dts.
 Proof.
-  unfold finalize. destruct (provider c SFinalize) as [[]|]; try reflexivity.
-  simpl m_hmac. now rewrite hmac_insert_between_set_app, hmac_insert_split_set_app.
+  intros H. unfold finalize. destruct (provider c SFinalize) as [[]|]; try reflexivity.
+  simpl m_hmac. now rewrite app_len_set_app, hmac_insert_between_set_app, hmac_insert_split_set_app.
 Qed.
 
 (* re-exporting the parsed application (IVT words zeroed) gives the same image, for EVERY class with an IVT *)
@@ -103,652 +103,6 @@ Proof.
   destruct (post_encrypt c x enc) as [enc2|]; simpl; [|reflexivity].
   change (sign k c (set_app x (clean_ivt (m_app x))) enc2) with (sign k c x enc2).
   destruct (sign k c x enc2) as [sg|]; simpl; [|reflexivity].
-  now rewrite finalize_set_app.
+  now rewrite finalize_set_app by (now apply clean_ivt_length).
 Qed.
 
-(* ------------------------------------------------------------------ plain / CRC classes (ExportMixinApp / ExportMixinAppTrustZone
-   with optional ExportMixinCrcSign): parse (export x) = x *)
-Definition allowed_plain (m : mixin) : bool :=
-  match m with
-  | MixinApp | MixinTrustZone | MixinTrustZoneMandatory | MixinLoadAddress | MixinLoadAddressOptional | MixinFwVersion
-  | MixinImageVersion | MixinImageSubType | MixinIvt | MixinIvtZeroTotalLength | MixinRelocTable | MixinHwKey
-  | ExportMixinApp | ExportMixinAppTrustZone | ExportMixinCrcSign => true
-  | _ => false
-  end.
-Definition wf_plain_crc (c : mbi_class) : bool :=
-  forallb allowed_plain (c_mixins c) && has c MixinApp && has_attr c AIvtTable &&
-  (0 <=? c_type c) && (c_type c <? 64) &&
-  (match provider c SCollect with
-   | Some ExportMixinApp => negb (has_attr c ATrustZone)
-   | Some ExportMixinAppTrustZone => has_attr c ATrustZone
-   | _ => false
-   end) &&
-  (opt_mixin_id (provider c SDisassemble) =? opt_mixin_id (provider c SCollect)).
-
-Definition upd (x : mbi) (m : mixin) (st : mbi) : mbi :=
-  match m with
-  | MixinTrustZone | MixinTrustZoneMandatory => set_tz st (m_tz x)
-  | MixinLoadAddress | MixinLoadAddressOptional => set_load st (m_load x)
-  | MixinImageVersion => set_imgver st (m_imgver x)
-  | MixinImageSubType => set_subtype st (m_subtype x)
-  | MixinHwKey => set_hwkey st (m_hwkey x)
-  | _ => st
-  end.
-Definition gives (a : attr) (m : mixin) : bool := existsb (attr_eqb a) (mixin_attrs m).
-Lemma has_attr_gives c a : has_attr c a = existsb (gives a) (c_mixins c).
-Proof. reflexivity. Qed.
-
-Definition parsed_plain (c : mbi_class) (x : mbi) : mbi :=
-  {| m_app := clean_ivt (m_app x);
-     m_load := if has_attr c ALoadAddress then m_load x else 0;
-     m_imgver := if has_attr c AImageVersion then m_imgver x else 0;
-     m_subtype := if has_attr c AImageSubtype then m_subtype x else 0;
-     m_fwver := 0;
-     m_tz := if has_attr c ATrustZone then m_tz x else TzEnabled;
-     m_hwkey := if has_attr c AHwKey then m_hwkey x else false;
-     m_ks := None; m_hmac := None; m_iv := []; m_table := None; m_cert := None; m_digest := 0 |}.
-
-Lemma fold_upd_fields x l : forall st,
-  let st' := fold_left (fun s m => upd x m s) l st in
-  m_app st' = m_app st /\ m_fwver st' = m_fwver st /\ m_ks st' = m_ks st /\ m_hmac st' = m_hmac st /\
-  m_iv st' = m_iv st /\ m_table st' = m_table st /\ m_cert st' = m_cert st /\ m_digest st' = m_digest st /\
-  m_load st' = (if existsb (gives ALoadAddress) l then m_load x else m_load st) /\
-  m_imgver st' = (if existsb (gives AImageVersion) l then m_imgver x else m_imgver st) /\
-  m_subtype st' = (if existsb (gives AImageSubtype) l then m_subtype x else m_subtype st) /\
-  m_tz st' = (if existsb (gives ATrustZone) l then m_tz x else m_tz st) /\
-  m_hwkey st' = (if existsb (gives AHwKey) l then m_hwkey x else m_hwkey st).
-Proof.
-  induction l as [|m l IH]; intros st; simpl; [repeat split; reflexivity|].
-  specialize (IH (upd x m st)). simpl in IH.
-  destruct IH as (I1 & I2 & I3 & I4 & I5 & I6 & I7 & I8 & I9 & I10 & I11 & I12 & I13).
-  rewrite I1, I2, I3, I4, I5, I6, I7, I8, I9, I10, I11, I12, I13.
-  destruct m; simpl; repeat split; try reflexivity;
-    repeat match goal with |- context [if ?b then _ else _] => destruct b end; reflexivity.
-Qed.
-
-Lemma mbi_ext (a b : mbi) :
-  m_app a = m_app b -> m_load a = m_load b -> m_imgver a = m_imgver b -> m_subtype a = m_subtype b ->
-  m_fwver a = m_fwver b -> m_tz a = m_tz b -> m_hwkey a = m_hwkey b -> m_ks a = m_ks b -> m_hmac a = m_hmac b ->
-  m_iv a = m_iv b -> m_table a = m_table b -> m_cert a = m_cert b -> m_digest a = m_digest b -> a = b.
-Proof. destruct a, b; simpl; intros; subst; reflexivity. Qed.
-
-(* stages no allowed mixin provides *)
-Lemma provider_none_plain l s :
-  forallb allowed_plain l = true ->
-  match s with SEncrypt | SPostEncrypt | SFinalize => provider_in l s = None | _ => True end.
-Proof.
-  intros H. destruct s; try exact I; induction l as [|m l IH]; try reflexivity;
-    simpl in H; apply andb_true_iff in H as [H1 H2]; destruct m; try discriminate; simpl; apply IH; assumption.
-Qed.
-Lemma provider_sign_plain l :
-  forallb allowed_plain l = true -> provider_in l SSign = None \/ provider_in l SSign = Some ExportMixinCrcSign.
-Proof.
-  intros H. induction l as [|m l IH]; [left; reflexivity|].
-  simpl in H; apply andb_true_iff in H as [H1 H2]. destruct m; try discriminate; simpl; auto.
-Qed.
-Lemma supported_plain l : forallb allowed_plain l = true -> existsb unsupported_mixin l = false.
-Proof.
-  intros H. induction l as [|m l IH]; [reflexivity|].
-  simpl in H; apply andb_true_iff in H as [H1 H2]. simpl. rewrite (IH H2). destruct m; try discriminate; reflexivity.
-Qed.
-Lemma no_cert_plain l : forallb allowed_plain l = true -> existsb (gives ACertBlock) l = false.
-Proof.
-  intros H. induction l as [|m l IH]; [reflexivity|].
-  simpl in H; apply andb_true_iff in H as [H1 H2]. simpl. rewrite (IH H2). destruct m; try discriminate; reflexivity.
-Qed.
-Lemma no_manifest_plain l : forallb allowed_plain l = true ->
-  existsb (mixin_eqb MixinManifestCrc) l = false /\ existsb (mixin_eqb MixinManifestDigest) l = false.
-Proof.
-  intros H. induction l as [|m l IH]; [split; reflexivity|].
-  simpl in H; apply andb_true_iff in H as [H1 H2]. destruct (IH H2) as [A B]. simpl. rewrite A, B.
-  destruct m; try discriminate; split; reflexivity.
-Qed.
-Lemma clean_provider l : existsb (gives AIvtTable) l = true -> exists d, provider_in l SCleanIvt = Some d.
-Proof.
-  induction l as [|m l IH]; [discriminate|]. intros H. cbn [existsb] in H. apply orb_true_iff in H as [H|H].
-  - destruct m; cbv in H; try discriminate H; cbn [provider_in definer]; eauto.
-  - destruct (IH H) as [d Hd]. cbn [provider_in]. destruct (definer m SCleanIvt); eauto.
-Qed.
-Lemma reloc_provider l : provider_in l SDisassemblyAppData = None \/ provider_in l SDisassemblyAppData = Some MixinRelocTable.
-Proof. induction l as [|m l IH]; [left; reflexivity|]. destruct m; simpl; auto. Qed.
-
-Record data_ok (c : mbi_class) (x : mbi) (tzsize : nat) (data : list N) : Prop := {
-  d_flags : get_flags data = create_flags c x;
-  d_load : rd32 OFF_LOAD data = ivt_load c x;
-  d_tz : has_attr c ATrustZone = true -> forall d, m_tz x = TzCustom d ->
-         tz_from_binary tzsize (match tzsize with O => data | _ => take_last tzsize data end) = Ok (TzCustom d) }.
-
-Lemma in_gives_has_attr c a m : In m (c_mixins c) -> gives a m = true -> has_attr c a = true.
-Proof. intros Hi Hg. rewrite has_attr_gives. apply existsb_exists. eauto. Qed.
-
-Lemma mix_parse_plain c x tzsize sigsz dek data m st :
-  0 <= c_type c < 64 -> 0 <= m_subtype x < 4 -> 0 <= m_imgver x < 65536 ->
-  has_attr c ACertBlock = false -> has_tz c = has_attr c ATrustZone ->
-  data_ok c x tzsize data -> allowed_plain m = true -> In m (c_mixins c) ->
-  mix_parse c tzsize sigsz dek data m st = Ok (upd x m st).
-Proof.
-  intros R1 R2 R3 NC HT [DF DL DT] Ha Hi.
-  pose proof (flags_decode_lemma c x R1 R2 R3) as (F0 & F1 & F2 & F3 & F4 & F5 & F6 & F7).
-  destruct m; try discriminate Ha; try reflexivity; unfold mix_parse, flag_set, upd; rewrite ?DF, ?DL.
-  - (* MixinTrustZone *)
-    pose proof (in_gives_has_attr c ATrustZone MixinTrustZone Hi eq_refl) as HA.
-    rewrite F2, HT, HA, NC.
-    destruct (m_tz x) as [|d|] eqn:E; cbn [tz_tag]; try reflexivity.
-    change (G_TZ_CUSTOM =? G_TZ_CUSTOM) with true. cbv iota. rewrite (DT HA d eq_refl). reflexivity.
-  - (* MixinTrustZoneMandatory *)
-    pose proof (in_gives_has_attr c ATrustZone MixinTrustZoneMandatory Hi eq_refl) as HA.
-    rewrite F2, HT, HA, NC.
-    destruct (m_tz x) as [|d|] eqn:E; cbn [tz_tag]; try reflexivity.
-    change (G_TZ_CUSTOM =? G_TZ_CUSTOM) with true. cbv iota. rewrite (DT HA d eq_refl). reflexivity.
-  - unfold ivt_load. now rewrite (in_gives_has_attr c ALoadAddress MixinLoadAddress Hi eq_refl).
-  - unfold ivt_load. now rewrite (in_gives_has_attr c ALoadAddress MixinLoadAddressOptional Hi eq_refl).
-  - rewrite F7. now rewrite (in_gives_has_attr c AImageVersion MixinImageVersion Hi eq_refl).
-  - rewrite F3. now rewrite (in_gives_has_attr c AImageSubtype MixinImageSubType Hi eq_refl).
-  - rewrite F4. now rewrite (in_gives_has_attr c AHwKey MixinHwKey Hi eq_refl).
-Qed.
-
-Lemma parse_round_plain c x tzsize sigsz dek data l : forall st,
-  0 <= c_type c < 64 -> 0 <= m_subtype x < 4 -> 0 <= m_imgver x < 65536 ->
-  has_attr c ACertBlock = false -> has_tz c = has_attr c ATrustZone -> data_ok c x tzsize data ->
-  forallb allowed_plain l = true -> (forall m, In m l -> In m (c_mixins c)) ->
-  parse_round c tzsize sigsz dek data l st = Ok (fold_left (fun s m => upd x m s) l st, []).
-Proof.
-  induction l as [|m l IH]; intros st R1 R2 R3 NC HT D Ha Hs; [reflexivity|].
-  simpl in Ha. apply andb_true_iff in Ha as [Ha1 Ha2].
-  cbn [parse_round]. rewrite NC, andb_false_r. cbn [andb].
-  rewrite (mix_parse_plain c x tzsize sigsz dek data m st R1 R2 R3 NC HT D Ha1) by (apply Hs; now left).
-  cbn [bind]. rewrite IH; try assumption; [reflexivity|]. intros m' Hm'. apply Hs. now right.
-Qed.
-
-(* bytes of a two-part image *)
-Lemma rd32_app o (a b : list N) : (o + 4 <= length a)%nat -> rd32 o (a ++ b) = rd32 o a.
-Proof.
-  intros H. unfold rd32. f_equal. f_equal. rewrite skipn_app. replace (o - length a)%nat with 0%nat by lia.
-  rewrite firstn_app. rewrite skipn_length. replace (4 - (length a - o))%nat with 0%nat by lia.
-  simpl. now rewrite app_nil_r.
-Qed.
-Lemma take_last_app (a b : list N) : take_last (length b) (a ++ b) = b.
-Proof.
-  unfold take_last. rewrite app_length. replace (length a + length b - length b)%nat with (length a) by lia.
-  rewrite skipn_app, skipn_all, Nat.sub_diag. reflexivity.
-Qed.
-Lemma drop_last_app (a b : list N) : drop_last (length b) (a ++ b) = a.
-Proof.
-  unfold drop_last. rewrite app_length. replace (length a + length b - length b)%nat with (length a) by lia.
-  rewrite firstn_app, firstn_all, Nat.sub_diag. simpl. apply app_nil_r.
-Qed.
-Lemma pad4_id (d : list N) : (length d mod 4 = 0)%nat -> pad4 d = d.
-Proof. intros H. unfold pad4. rewrite H. simpl. apply app_nil_r. Qed.
-
-Lemma clean_wr_crc w d : length w = 4%nat -> (56 <= length d)%nat -> clean_ivt (wr OFF_CRC w d) = clean_ivt d.
-Proof.
-  intros Hw L. rewrite off_crc_eq. assert (Lw : length (wr 40 w d) = length d) by (apply wr_length; lia).
-  apply list_eq_nth; [rewrite !clean_ivt_length; lia|].
-  intros i _. rewrite !nth_clean_ivt by lia. rewrite nth_wr by lia. rewrite Hw.
-  destruct (32 <=? i)%nat eqn:B1; destruct (i <? 44)%nat eqn:B2; destruct (52 <=? i)%nat eqn:B3; destruct (i <? 56)%nat eqn:B4;
-    simpl; try reflexivity;
-    repeat match goal with H : (_ <=? _)%nat = true |- _ => apply Nat.leb_le in H
-                        | H : (_ <=? _)%nat = false |- _ => apply Nat.leb_gt in H
-                        | H : (_ <? _)%nat = true |- _ => apply Nat.ltb_lt in H
-                        | H : (_ <? _)%nat = false |- _ => apply Nat.ltb_ge in H end;
-    decide_ltb; try reflexivity; lia.
-Qed.
-
-Lemma flat_cons (a : list N) t : flat (a :: t) = a ++ flat t.
-Proof. reflexivity. Qed.
-Lemma flat_tz_segment x : flat (tz_segment x) = tz_export (m_tz x).
-Proof. unfold tz_segment, flat. destruct (tz_export (m_tz x)); simpl; [reflexivity|now rewrite app_nil_r]. Qed.
-
-Lemma has_in c m : has c m = true -> In m (c_mixins c).
-Proof.
-  unfold has. intros H. apply existsb_exists in H as (m' & Hi & He). unfold mixin_eqb in He. apply Z.eqb_eq in He.
-  assert (m = m') by (destruct m, m'; try reflexivity; discriminate He). now subst.
-Qed.
-
-Definition tz_part (c : mbi_class) (x : mbi) : list N := if has_attr c ATrustZone then tz_export (m_tz x) else [].
-
-Lemma crc_write_head s t w : (40 <= length s)%nat -> crc_write (s :: t) 0 w = Some (wr OFF_CRC w s :: t).
-Proof.
-  intros H. cbn [crc_write]. replace (Nat.leb 0 OFF_CRC && Nat.leb OFF_CRC (0 + length s)) with true
-    by (symmetry; rewrite off_crc_eq; apply andb_true_iff; split; apply Nat.leb_le; lia).
-  now rewrite Nat.sub_0_r.
-Qed.
-
-(* shape of the exported image of a plain / CRC class *)
-Lemma export_plain_shape k c x im :
-  wf_plain_crc c = true -> (56 <= length (m_app x))%nat -> m_table x = None ->
-  export_mbi k c x = Ok im ->
-  exists app' app'', update_ivt c x (m_app x) (total_len c x) 0 = Ok app' /\
-    (app'' = app' \/ exists w, length w = 4%nat /\ app'' = wr OFF_CRC w app') /\
-    im = app'' ++ tz_part c x.
-Proof.
-  intros W L HT E. unfold wf_plain_crc in W.
-  repeat (apply andb_true_iff in W as [W ?]).
-  rename H into Wd, H0 into Wc, H1 into Wt2, H2 into Wt1, H3 into Wi, H4 into Wa.
-  unfold export_mbi, export_image in E. unfold supported in E. rewrite (supported_plain _ W) in E. cbn [negb] in E.
-  destruct (validate c x) as [[]|] eqn:V; cbn [bind] in E; [|discriminate].
-  pose proof (provider_none_plain (c_mixins c) SEncrypt W) as PE. pose proof (provider_none_plain (c_mixins c) SPostEncrypt W) as PP.
-  pose proof (provider_none_plain (c_mixins c) SFinalize W) as PF. cbn in PE, PP, PF.
-  assert (CA : exists app', update_ivt c x (m_app x) (total_len c x) 0 = Ok app' /\ collect_app c x = Ok [app']).
-  { unfold collect, collect_app in *. destruct (m_app x) as [|b t] eqn:Ea; [simpl in L; lia|]. rewrite Wi in *.
-    destruct (update_ivt c x (b :: t) (total_len c x) 0) as [app'|] eqn:U.
-    - exists app'. split; [reflexivity|]. cbn [bind]. unfold reloc_segment. rewrite HT. destruct (has_attr c AAppTable); reflexivity.
-    - exfalso. destruct (provider c SCollect) as [[]|]; try discriminate Wc; cbn [bind] in E; discriminate E. }
-  destruct CA as (app' & U & CA). exists app'.
-  assert (La : length app' = length (m_app x)) by (eapply update_ivt_length; eassumption).
-  assert (COL : collect c x = Ok ([app'] ++ (if has_attr c ATrustZone then tz_segment x else []))).
-  { unfold collect. destruct (provider c SCollect) as [[]|]; try discriminate Wc; rewrite CA; cbn [bind].
-    - apply negb_true_iff in Wc. rewrite Wc. reflexivity.
-    - rewrite Wc. reflexivity. }
-  rewrite COL in E. cbn [bind] in E.
-  unfold encrypt, provider in E. rewrite PE in E. cbn [bind] in E.
-  unfold post_encrypt, provider in E. rewrite PP in E. cbn [bind] in E.
-  assert (FT : flat (if has_attr c ATrustZone then tz_segment x else []) = tz_part c x).
-  { unfold tz_part. destruct (has_attr c ATrustZone); [apply flat_tz_segment|reflexivity]. }
-  unfold sign, provider in E. destruct (provider_sign_plain _ W) as [PS|PS]; rewrite PS in E; cbn [bind fst snd] in E.
-  - exists app'. split; [assumption|]. split; [now left|].
-    unfold finalize, provider in E. rewrite PF in E. cbn [res_map] in E. injection E as <-.
-    rewrite ?flat_cons. f_equal. exact FT.
-  - change ([app'] ++ (if has_attr c ATrustZone then tz_segment x else []))
-      with (app' :: (if has_attr c ATrustZone then tz_segment x else [])) in E.
-    match type of E with context [crc_write _ 0 ?w] => remember w as cw eqn:Ecw end.
-    rewrite crc_write_head in E by lia.
-    cbn [bind fst snd] in E. unfold finalize, provider in E. rewrite PF in E. cbn [res_map] in E. injection E as <-.
-    exists (wr OFF_CRC cw app'). split; [assumption|]. split; [right; exists cw; split; [subst cw; apply le_enc_length|reflexivity]|].
-    rewrite ?flat_cons. f_equal. exact FT.
-Qed.
-
-Lemma opt_id_eq_app p : opt_mixin_id p = opt_mixin_id (Some ExportMixinApp) -> p = Some ExportMixinApp.
-Proof. destruct p as [[]|]; cbv; intros H; try discriminate H; reflexivity. Qed.
-Lemma opt_id_eq_apptz p : opt_mixin_id p = opt_mixin_id (Some ExportMixinAppTrustZone) -> p = Some ExportMixinAppTrustZone.
-Proof. destruct p as [[]|]; cbv; intros H; try discriminate H; reflexivity. Qed.
-
-Lemma parse_rounds_nil fuel c tzsize sigsz dek data st : parse_rounds fuel c tzsize sigsz dek data [] st = Ok st.
-Proof. destruct fuel; reflexivity. Qed.
-
-Lemma parse_rounds_step f c tzsize sigsz dek data l st : l <> [] ->
-  parse_rounds (S f) c tzsize sigsz dek data l st =
-  bind (parse_round c tzsize sigsz dek data l st) (fun r => parse_rounds f c tzsize sigsz dek data (snd r) (fst r)).
-Proof. destruct l; [congruence | reflexivity]. Qed.
-
-Theorem roundtrip_plain_crc k c x tzsize sigsz dek im :
-  wf_plain_crc c = true ->
-  (56 <= length (m_app x))%nat -> (length (m_app x) mod 4 = 0)%nat ->
-  0 <= m_subtype x < 4 -> 0 <= m_imgver x < 65536 ->
-  m_table x = None ->
-  (forall d, m_tz x = TzCustom d -> length d = tzsize /\ (0 < tzsize)%nat) ->
-  export_mbi k c x = Ok im ->
-  (has c MixinRelocTable = true -> table_parse (firstn (length (m_app x)) im) = Ok None) ->
-  parse_mbi k c tzsize sigsz dek im = Ok (parsed_plain c x).
-Proof.
-  intros W L L4 R2 R3 HT HZ E HR.
-  destruct (export_plain_shape k c x im W L HT E) as (app' & app'' & U & HA & ->).
-  pose proof W as W'. unfold wf_plain_crc in W'. repeat (apply andb_true_iff in W' as [W' ?]).
-  rename H into Wd, H0 into Wc, H1 into Wt2, H2 into Wt1, H3 into Wi, H4 into Wa.
-  assert (R1 : 0 <= c_type c < 64) by (apply Z.leb_le in Wt1; apply Z.ltb_lt in Wt2; lia).
-  assert (La : length app' = length (m_app x)) by (eapply update_ivt_length; eassumption).
-  destruct (ivt_words c x (m_app x) (total_len c x) 0 app' L U) as (IW1 & IW2 & IW3 & IW4).
-  assert (La'' : length app'' = length (m_app x)).
-  { destruct HA as [->|(w & Hw & ->)]; [assumption|]. rewrite off_crc_eq, wr_length; lia. }
-  assert (F'' : rd32 OFF_FLAGS app'' = create_flags c x /\ rd32 OFF_LOAD app'' = ivt_load c x).
-  { destruct HA as [->|(w & Hw & ->)]; [auto|]. rewrite off_crc_eq, off_flags_eq, off_load_eq in *.
-    rewrite !rd32_wr_other by lia. auto. }
-  destruct F'' as [FF FL].
-  assert (CL : clean_ivt app'' = clean_ivt (m_app x)).
-  { destruct HA as [->|(w & Hw & ->)]; [|rewrite clean_wr_crc by lia]; eapply clean_update; eassumption. }
-  assert (NC : has_attr c ACertBlock = false) by (rewrite has_attr_gives; now apply no_cert_plain).
-  assert (HTZ : has_tz c = has_attr c ATrustZone).
-  { unfold has_tz, has_manifest, has. destruct (no_manifest_plain _ W') as [-> ->]. now rewrite orb_false_r. }
-  assert (D : data_ok c x tzsize (app'' ++ tz_part c x)).
-  { split.
-    - unfold get_flags. rewrite rd32_app by (rewrite off_flags_eq; lia). exact FF.
-    - rewrite rd32_app by (rewrite off_load_eq; lia). exact FL.
-    - intros HA2 d Ed. destruct (HZ d Ed) as [Ld Lz]. destruct tzsize as [|n]; [lia|].
-      unfold tz_part. rewrite HA2, Ed. cbn [tz_export].
-      replace (take_last (S n) (app'' ++ d)) with d by (rewrite <- Ld; symmetry; apply take_last_app).
-      unfold tz_from_binary. rewrite Ld, Nat.ltb_irrefl. rewrite <- Ld. now rewrite firstn_all. }
-  (* parse *)
-  unfold parse_mbi. unfold supported. rewrite (supported_plain _ W'). cbn [negb].
-  assert (NE : c_mixins c <> []).
-  { apply has_in in Wa. destruct (c_mixins c) as [|m t]; [contradiction|congruence]. }
-  rewrite parse_rounds_step by assumption.
-  rewrite (parse_round_plain c x tzsize sigsz dek (app'' ++ tz_part c x) (c_mixins c) mbi_default R1 R2 R3 NC HTZ D W')
-    by (intros; assumption).
-  cbn [bind fst snd]. rewrite parse_rounds_nil. cbn [bind].
-  set (st := fold_left (fun s m => upd x m s) (c_mixins c) mbi_default).
-  pose proof (fold_upd_fields x (c_mixins c) mbi_default) as FU. cbv zeta in FU. fold st in FU.
-  destruct FU as (U1 & U2 & U3 & U4 & U5 & U6 & U7 & U8 & U9 & U10 & U11 & U12 & U13).
-  rewrite <- !has_attr_gives in *. cbn [mbi_default m_app m_fwver m_ks m_hmac m_iv m_table m_cert m_digest m_load m_imgver m_subtype m_tz m_hwkey] in *.
-  pose proof (provider_none_plain (c_mixins c) SEncrypt W') as PE. pose proof (provider_none_plain (c_mixins c) SPostEncrypt W') as PP.
-  pose proof (provider_none_plain (c_mixins c) SFinalize W') as PF. cbn in PE, PP, PF.
-  unfold finalize_revert, provider. rewrite PF. cbn [bind].
-  unfold sign_revert, provider. destruct (provider_sign_plain _ W') as [PS|PS]; rewrite PS; cbn [bind];
-    unfold post_encrypt_revert, encrypt_revert, provider; rewrite PP, PE; cbn [bind].
-  all: destruct (clean_provider _ Wi) as (dcl & PCL).
-  all: assert (CUT : cut_tz st (app'' ++ tz_part c x) = app'').
-  1,3: unfold cut_tz, tz_part; rewrite U12; destruct (has_attr c ATrustZone);
-       [destruct (tz_export (m_tz x)) eqn:Et; [now rewrite app_nil_r | rewrite <- Et; apply drop_last_app]
-       | cbn [tz_export]; now rewrite app_nil_r].
-  all: assert (TP : tz_part c x = [] \/ provider c SCollect = Some ExportMixinAppTrustZone).
-  1,3: unfold tz_part; destruct (provider c SCollect) as [[]|]; try discriminate Wc;
-       [apply negb_true_iff in Wc; rewrite Wc; now left | now right].
-  all: assert (RC : reloc_cut c st app'' = Ok (set_table st None, app'')).
-  1,3: unfold reloc_cut, provider; destruct (reloc_provider (c_mixins c)) as [PR|PR]; rewrite PR;
-       [ f_equal; f_equal; apply mbi_ext; try reflexivity; cbn; now rewrite U6
-       | unfold disassembly_app_data;
-         assert (HM : has c MixinRelocTable = true)
-           by (unfold has; clear - PR; induction (c_mixins c) as [|m l IH]; [discriminate|];
-               cbn [provider_in] in PR; destruct (definer m SDisassemblyAppData) eqn:Ed;
-               [destruct m; try discriminate Ed; reflexivity | cbn [existsb]; rewrite (IH PR); apply orb_true_r]);
-         specialize (HR HM); rewrite <- La'', firstn_app, firstn_all, Nat.sub_diag in HR; cbn [firstn] in HR;
-         rewrite app_nil_r in HR; rewrite HR; reflexivity ].
-  all: assert (FIN : finish_app c (set_table st None) app'' = parsed_plain c x).
-  1,3: unfold finish_app, provider; rewrite PCL, CL, pad4_id by (rewrite clean_ivt_length; assumption);
-       apply mbi_ext; cbn; try reflexivity; try assumption;
-       repeat match goal with |- context [if ?b then _ else _] => destruct b end; congruence.
-  all: unfold disassemble; apply Z.eqb_eq in Wd.
-  all: destruct TP as [TP|TP].
-  all: try (rewrite TP in *).
-  all: destruct (provider c SCollect) as [[]|] eqn:PC; try discriminate Wc; try discriminate TP.
-  all: try (apply opt_id_eq_app in Wd); try (apply opt_id_eq_apptz in Wd); rewrite Wd.
-  all: rewrite ?app_nil_r in *; rewrite ?CUT; rewrite RC; cbn [bind fst snd]; now rewrite FIN.
-Qed.
-
-(* ------------------------------------------------------------------ settings a class does not carry are at their defaults *)
-Definition canonical_plain (c : mbi_class) (x : mbi) : Prop :=
-  (has_attr c ALoadAddress = false -> m_load x = 0) /\ (has_attr c AImageVersion = false -> m_imgver x = 0) /\
-  (has_attr c AImageSubtype = false -> m_subtype x = 0) /\ (has_attr c ATrustZone = false -> m_tz x = TzEnabled) /\
-  (has_attr c AHwKey = false -> m_hwkey x = false) /\
-  m_fwver x = 0 /\ m_ks x = None /\ m_hmac x = None /\ m_iv x = [] /\ m_table x = None /\ m_cert x = None /\ m_digest x = 0.
-
-Lemma parsed_plain_canonical c x : canonical_plain c x -> parsed_plain c x = set_app x (clean_ivt (m_app x)).
-Proof.
-  intros (C1 & C2 & C3 & C4 & C5 & C6 & C7 & C8 & C9 & C10 & C11 & C12).
-  apply mbi_ext; cbn; try reflexivity; try (symmetry; assumption);
-    match goal with |- (if ?b then _ else _) = _ => destruct b eqn:Hb; [reflexivity|symmetry; auto] end.
-Qed.
-
-(* a non-trivial instance: lpc55s6x-style crc_xip class with TrustZone, 64-byte application *)
-Example wf_plain_crc_instance :
-  wf_plain_crc {| c_type := 5; c_mixins := [MixinApp; MixinIvt; MixinTrustZone; ExportMixinAppTrustZone; ExportMixinCrcSign] |} = true.
-Proof. vm_compute. reflexivity. Qed.
-
-(* ------------------------------------------------------------------ total length = bytes emitted (plain / CRC classes) *)
-Definition hasl (l : list mixin) (m : mixin) : bool := existsb (mixin_eqb m) l.
-Lemma sum_len_plain x l :
-  forallb allowed_plain l = true -> nodupb l = true -> m_table x = None ->
-  sumz (map (mix_len x) l) =
-  (if hasl l MixinApp then zlen (m_app x) else 0) + (if hasl l MixinTrustZone then zlen (tz_export (m_tz x)) else 0) +
-  (if hasl l MixinTrustZoneMandatory then zlen (tz_export (m_tz x)) else 0).
-Proof.
-  intros Ha Hn Ht. induction l as [|m l IH]; [reflexivity|].
-  cbn [forallb] in Ha. apply andb_true_iff in Ha as [Ha1 Ha2].
-  cbn [nodupb] in Hn. apply andb_true_iff in Hn as [Hn1 Hn2]. apply negb_true_iff in Hn1.
-  specialize (IH Ha2 Hn2). cbn [map sumz fold_right]. fold (sumz (map (mix_len x) l)). rewrite IH.
-  unfold hasl in *. cbn [existsb].
-  destruct m; try discriminate Ha1; cbn [mix_len mixin_eqb mixin_id Z.eqb orb Pos.eqb]; rewrite ?Hn1, ?Ht; cbn [orb];
-    repeat match goal with |- context [if ?b then _ else _] => destruct b end; lia.
-Qed.
-
-Lemma has_attr_tz_plain l : forallb allowed_plain l = true ->
-  existsb (gives ATrustZone) l = hasl l MixinTrustZone || hasl l MixinTrustZoneMandatory.
-Proof.
-  intros H. induction l as [|m l IH]; [reflexivity|]. cbn [forallb] in H. apply andb_true_iff in H as [H1 H2].
-  unfold hasl in *. cbn [existsb]. rewrite (IH H2). destruct m; try discriminate H1; cbn; 
-    repeat match goal with |- context [existsb ?f ?l] => destruct (existsb f l) end; reflexivity.
-Qed.
-
-Theorem len_is_sum_plain_crc k c x im :
-  wf_plain_crc c = true -> nodupb (c_mixins c) = true ->
-  (has c MixinTrustZone && has c MixinTrustZoneMandatory) = false ->
-  (56 <= length (m_app x))%nat -> m_table x = None ->
-  export_mbi k c x = Ok im ->
-  zlen im = total_len c x /\
-  rd32 OFF_LEN im = (match provider c SUpdateIvt with Some MixinIvtZeroTotalLength => 0 | _ => zlen im end) /\
-  rd32 OFF_FLAGS im = create_flags c x /\ rd32 OFF_LOAD im = (if has_attr c ALoadAddress then m_load x else 0).
-Proof.
-  intros W ND NB L HT E.
-  destruct (export_plain_shape k c x im W L HT E) as (app' & app'' & U & HA & ->).
-  pose proof W as W'. unfold wf_plain_crc in W'. repeat (apply andb_true_iff in W' as [W' ?]).
-  rename H into Wd, H0 into Wc, H1 into Wt2, H2 into Wt1, H3 into Wi, H4 into Wa.
-  assert (La : length app' = length (m_app x)) by (eapply update_ivt_length; eassumption).
-  destruct (ivt_words c x (m_app x) (total_len c x) 0 app' L U) as (IW1 & IW2 & IW3 & IW4).
-  assert (La'' : length app'' = length (m_app x)).
-  { destruct HA as [->|(w & Hw & ->)]; [assumption|]. rewrite off_crc_eq, wr_length; lia. }
-  assert (TL : total_len c x = zlen (app'' ++ tz_part c x)).
-  { unfold total_len. rewrite (sum_len_plain x (c_mixins c) W' ND HT).
-    unfold has in Wa, NB. unfold hasl. rewrite Wa. unfold zlen. rewrite app_length, La''.
-    unfold tz_part. rewrite has_attr_gives, (has_attr_tz_plain _ W'). unfold hasl.
-    destruct (existsb (mixin_eqb MixinTrustZone) (c_mixins c)), (existsb (mixin_eqb MixinTrustZoneMandatory) (c_mixins c));
-      try discriminate NB; cbn [orb]; simpl length; lia. }
-  assert (F'' : rd32 OFF_LEN app'' = ivt_total c (total_len c x) /\ rd32 OFF_FLAGS app'' = create_flags c x /\ rd32 OFF_LOAD app'' = ivt_load c x).
-  { destruct HA as [->|(w & Hw & ->)]; [auto|]. rewrite off_crc_eq, off_flags_eq, off_load_eq, off_len_eq in *.
-    rewrite !rd32_wr_other by lia. auto. }
-  destruct F'' as (F1 & F2 & F3).
-  split; [now rewrite TL|]. rewrite !rd32_app by (rewrite ?off_len_eq, ?off_flags_eq, ?off_load_eq; lia).
-  rewrite F1, F2, F3. unfold ivt_total, ivt_load. rewrite TL. auto.
-Qed.
-
-Lemma roundtrip_plain_crc_full :
-  forall (k : crypto) (c : mbi_class) (x : mbi) (tzsize sigsz : nat) (dek : option (list N)) (im : list N),
-    wf_plain_crc c = true ->
-    (56 <= length (m_app x))%nat -> (length (m_app x) mod 4 = 0)%nat ->
-    0 <= m_subtype x < 4 -> 0 <= m_imgver x < 65536 ->
-    m_table x = None ->
-    (forall d, m_tz x = TzCustom d -> length d = tzsize /\ (0 < tzsize)%nat) ->
-    export_mbi k c x = Ok im ->
-    (has c MixinRelocTable = true -> table_parse (firstn (length (m_app x)) im) = Ok None) ->
-    parse_mbi k c tzsize sigsz dek im = Ok (parsed_plain c x) /\
-    (canonical_plain c x ->
-       parsed_plain c x = set_app x (clean_ivt (m_app x)) /\ export_mbi k c (parsed_plain c x) = Ok im).
-Proof.
-  intros k c x tzsize sigsz dek im W L L4 R2 R3 HT HZ E HR.
-  split; [exact (roundtrip_plain_crc k c x tzsize sigsz dek im W L L4 R2 R3 HT HZ E HR)|].
-  intros C. rewrite (parsed_plain_canonical c x C). split; [reflexivity|].
-  rewrite export_clean_app; [exact E | exact L |].
-  unfold wf_plain_crc in W. repeat (apply andb_true_iff in W as [W ?]). assumption.
-Qed.
-
-(* the hypotheses are satisfiable: a concrete class of the database, a concrete accepted input with a custom TrustZone *)
-Example roundtrip_plain_crc_nonvacuous :
-  let c := {| c_type := 5; c_mixins := [MixinApp; MixinIvt; MixinTrustZone; ExportMixinAppTrustZone; ExportMixinCrcSign] |} in
-  let x := {| m_app := map N.of_nat (seq 1 64); m_load := 0; m_imgver := 0; m_subtype := 0; m_fwver := 0;
-              m_tz := TzCustom (map N.of_nat (seq 7 8)); m_hwkey := false; m_ks := None; m_hmac := None; m_iv := [];
-              m_table := None; m_cert := None; m_digest := 0 |} in
-  let k := {| k_sign := fun _ => []; k_hmac := fun _ _ => []; k_ctr := fun _ _ _ d => d; k_hash := fun _ _ => [] |} in
-  wf_plain_crc c = true /\ canonical_plain c x /\
-  exists im, export_mbi k c x = Ok im /\ length im = 72%nat /\ parse_mbi k c 8 0 None im = Ok (parsed_plain c x).
-Proof.
-  cbv zeta. split; [vm_compute; reflexivity|]. split; [repeat split; intros; try reflexivity; discriminate|].
-  eexists. split; [vm_compute; reflexivity|]. split; vm_compute; reflexivity.
-Qed.
-
-(* ------------------------------------------------------------------ HMAC / key-store insertion (Mbi_ExportMixinHmacKeyStoreFinalize) *)
-Lemma hmac_off_eq : HMAC_OFF = 64%nat. Proof. reflexivity. Qed.
-Lemma hmac_split_after x hm im off : (64 < off)%nat -> hmac_insert_split x hm im off = im.
-Proof.
-  revert off; induction im as [|s t IH]; intros off H; [reflexivity|]. cbn [hmac_insert_split].
-  rewrite hmac_off_eq. replace (Nat.leb off 64) with false by (symmetry; apply Nat.leb_gt; lia). cbn [andb].
-  rewrite IH by lia. reflexivity.
-Qed.
-Lemma hmac_between_after x hm im off : (64 < off)%nat -> hmac_insert_between x hm im off = im.
-Proof.
-  revert off; induction im as [|s t IH]; intros off H; [reflexivity|]. cbn [hmac_insert_between].
-  rewrite hmac_off_eq. replace (Nat.eqb off 64) with false by (symmetry; apply Nat.eqb_neq; lia).
-  rewrite IH by lia. reflexivity.
-Qed.
-Lemma offsets_after im off : (64 < off)%nat -> existsb (Nat.eqb HMAC_OFF) (offsets_from im off) = false.
-Proof.
-  revert off; induction im as [|s t IH]; intros off H; [reflexivity|]. cbn [offsets_from existsb].
-  rewrite hmac_off_eq. replace (Nat.eqb 64 off) with false by (symmetry; apply Nat.eqb_neq; lia).
-  rewrite <- hmac_off_eq. apply IH. lia.
-Qed.
-
-Definition hmac_bytes (x : mbi) (hm : list N) : list N := hm ++ match m_ks x with Some b => b | None => [] end.
-Lemma flat_hmac_block x hm : flat (hmac_block x hm) = hmac_bytes x hm.
-Proof. unfold hmac_block, hmac_bytes, flat. destruct (m_ks x); simpl; now rewrite ?app_nil_r. Qed.
-Lemma flat_app (a b : image) : flat (a ++ b) = flat a ++ flat b.
-Proof. apply concat_app. Qed.
-
-(* first sub-image longer than 64 bytes: exactly one insertion, at byte 64 of the image *)
-Lemma hmac_insert_once_split x hm s t :
-  (64 < length s)%nat ->
-  existsb (Nat.eqb HMAC_OFF) (offsets_from (s :: t) 0) = false /\
-  flat (hmac_insert_split x hm (s :: t) 0) = firstn 64 (flat (s :: t)) ++ hmac_bytes x hm ++ skipn 64 (flat (s :: t)).
-Proof.
-  intros L. split.
-  - cbn [offsets_from existsb]. replace (Nat.eqb HMAC_OFF 0) with false by reflexivity. cbn [orb].
-    apply offsets_after. rewrite Nat.add_0_l. exact L.
-  - cbn [hmac_insert_split]. rewrite hmac_off_eq.
-    replace (Nat.leb 0 64 && Nat.ltb 64 (0 + length s)) with true
-      by (symmetry; apply andb_true_iff; split; [reflexivity | apply Nat.ltb_lt; lia]).
-    rewrite hmac_split_after by (rewrite Nat.add_0_l; exact L). rewrite Nat.sub_0_r.
-    rewrite !flat_app, flat_hmac_block. rewrite !flat_cons. unfold flat at 1 2. cbn [concat]. rewrite !app_nil_r.
-    rewrite firstn_app, skipn_app. replace (64 - length s)%nat with 0%nat by lia.
-    rewrite firstn_O, skipn_O, app_nil_r. now rewrite <- !app_assoc.
-Qed.
-
-(* first sub-image of exactly 64 bytes followed by a non-empty one: exactly one insertion between them *)
-Lemma hmac_insert_once_between x hm s s1 t :
-  length s = 64%nat -> (0 < length s1)%nat ->
-  existsb (Nat.eqb HMAC_OFF) (offsets_from (s :: s1 :: t) 0) = true /\
-  flat (hmac_insert_between x hm (s :: s1 :: t) 0) =
-  firstn 64 (flat (s :: s1 :: t)) ++ hmac_bytes x hm ++ skipn 64 (flat (s :: s1 :: t)).
-Proof.
-  intros L L1. split.
-  - cbn [offsets_from existsb]. rewrite Nat.add_0_l, L. replace (Nat.eqb HMAC_OFF 64) with true by reflexivity.
-    apply orb_true_r.
-  - cbn [hmac_insert_between]. replace (Nat.eqb 0 HMAC_OFF) with false by reflexivity.
-    rewrite Nat.add_0_l, L. replace (Nat.eqb 64 HMAC_OFF) with true by reflexivity.
-    rewrite hmac_between_after by lia.
-    cbn [app]. rewrite !flat_cons, flat_app, flat_hmac_block, !flat_cons.
-    rewrite firstn_app, skipn_app, L, Nat.sub_diag. rewrite firstn_O, skipn_O, app_nil_r.
-    rewrite firstn_all2, skipn_all2 by lia. cbn [app]. rewrite <- ?app_assoc. reflexivity.
-Qed.
-
-Lemma get_flags_prefix (a b : list N) : (40 <= length a)%nat -> get_flags (a ++ b) = get_flags a.
-Proof. intros H. unfold get_flags. apply rd32_app. rewrite off_flags_eq. lia. Qed.
-
-(* finalize inserts HMAC (+ key store) exactly once at byte 64, and finalize(revert) removes exactly that, whenever the
-   first sub-image is longer than 64 bytes, or has exactly 64 bytes and is followed by a non-empty sub-image
-   (this excludes the classes of findings C01-F3 and C01-F4) *)
-Lemma hmac_finalize_inverse k c x st s t dts :
-  provider c SFinalize = Some ExportMixinHmacKeyStoreFinalize ->
-  ((64 < length s)%nat \/ (length s = 64%nat /\ exists s1 t1, t = s1 :: t1 /\ (0 < length s1)%nat)) ->
-  (exists kb kt, m_hmac x = Some (kb :: kt)) ->
-  (forall key data, length (k_hmac k key data) = 32%nat) ->
-  (forall b, m_ks x = Some b -> length b = 1424%nat) ->
-  flag_set (flat (s :: t)) G_KEY_STORE_FLAG = (match m_ks x with Some _ => true | None => false end) ->
-  exists im', finalize k c x (s :: t) dts = Ok im' /\
-    flat im' = firstn 64 (flat (s :: t)) ++
-               hmac_bytes x (k_hmac k (match m_hmac x with Some key => key | None => [] end) (firstn 64 (flat (s :: t)))) ++
-               skipn 64 (flat (s :: t)) /\
-    finalize_revert c st (flat im') = Ok (flat (s :: t)).
-Proof.
-  intros P Sh (kb & kt & Hk) Lh Lk Fl. unfold finalize. rewrite P, Hk.
-  set (F := flat (s :: t)) in *. set (hm := k_hmac k (kb :: kt) (firstn HMAC_OFF F)).
-  assert (LF : (64 <= length F)%nat).
-  { subst F. rewrite flat_cons, app_length. destruct Sh as [H|[H _]]; lia. }
-  assert (SHAPE : exists im', (if existsb (Nat.eqb HMAC_OFF) (offsets_from (s :: t) 0)
-                               then Ok (hmac_insert_between x hm (s :: t) 0) else Ok (hmac_insert_split x hm (s :: t) 0)) = Ok im'
-                              /\ flat im' = firstn 64 F ++ hmac_bytes x hm ++ skipn 64 F).
-  { destruct Sh as [H|[H (s1 & t1 & -> & H1)]].
-    - destruct (hmac_insert_once_split x hm s t H) as [E1 E2]. rewrite E1. eexists. split; [reflexivity|exact E2].
-    - destruct (hmac_insert_once_between x hm s s1 t1 H H1) as [E1 E2]. rewrite E1. eexists. split; [reflexivity|exact E2]. }
-  destruct SHAPE as (im' & E & FL). exists im'. split; [exact E|]. split; [exact FL|].
-  unfold finalize_revert. rewrite P, FL.
-  assert (Lhm : length hm = 32%nat) by apply Lh.
-  assert (L64 : length (firstn 64 F) = 64%nat) by (rewrite firstn_length; lia).
-  assert (FS : flag_set (firstn 64 F ++ hmac_bytes x hm ++ skipn 64 F) G_KEY_STORE_FLAG = flag_set F G_KEY_STORE_FLAG).
-  { unfold flag_set. rewrite get_flags_prefix by lia. rewrite <- (firstn_skipn 64 F) at 2. now rewrite get_flags_prefix by lia. }
-  rewrite FS, Fl. rewrite hmac_off_eq. f_equal.
-  change HMAC_SZ with 32%nat. change KS_SZ with 1424%nat.
-  set (HB := hmac_bytes x hm).
-  assert (LHB : (64 + 32 + (if match m_ks x with Some _ => true | None => false end then 1424 else 0))%nat
-                = length (firstn 64 F ++ HB)).
-  { rewrite app_length, L64. subst HB. unfold hmac_bytes. rewrite app_length, Lhm.
-    destruct (m_ks x) as [b|] eqn:Eb; [rewrite (Lk b eq_refl)|]; simpl length; lia. }
-  rewrite LHB. rewrite (app_assoc (firstn 64 F) HB (skipn 64 F)).
-  rewrite skipn_app, skipn_all, Nat.sub_diag, skipn_O. cbn [app].
-  rewrite <- app_assoc. rewrite firstn_app, L64, Nat.sub_diag, firstn_O, app_nil_r, firstn_firstn, Nat.min_id.
-  apply firstn_skipn.
-Qed.
-
-(* ------------------------------------------------------------------ certificate-block classes: disassemble_image cuts what collect_data appended *)
-Lemma sum_app_len x l :
-  nodupb l = true ->
-  sumz (map (mix_app_len x) l) =
-  (if hasl l MixinApp then zlen (m_app x) else 0) +
-  (if hasl l MixinRelocTable then (match m_table x with Some es => table_len es | None => 0 end) else 0).
-Proof.
-  intros Hn. induction l as [|m l IH]; [reflexivity|].
-  cbn [nodupb] in Hn. apply andb_true_iff in Hn as [Hn1 Hn2]. apply negb_true_iff in Hn1.
-  specialize (IH Hn2). cbn [map sumz fold_right]. fold (sumz (map (mix_app_len x) l)). rewrite IH.
-  unfold hasl in *. cbn [existsb].
-  destruct m; cbn [mix_app_len mixin_eqb mixin_id Z.eqb orb Pos.eqb]; rewrite ?Hn1; cbn [orb];
-    repeat match goal with |- context [if ?b then _ else _] => destruct b end; lia.
-Qed.
-
-Lemma app_len_no_table c x :
-  nodupb (c_mixins c) = true -> has c MixinApp = true -> has c MixinRelocTable = false -> app_len c x = zlen (m_app x).
-Proof.
-  intros ND HA HR. unfold app_len. rewrite sum_app_len by assumption. unfold has in *. unfold hasl. rewrite HA, HR. lia.
-Qed.
-
-Lemma no_reloc_provider l : existsb (mixin_eqb MixinRelocTable) l = false -> provider_in l SDisassemblyAppData = None.
-Proof.
-  induction l as [|m l IH]; [reflexivity|]. cbn [existsb]. intros H. apply orb_false_iff in H as [H1 H2].
-  cbn [provider_in]. destruct m; try (cbn [definer]; apply IH; assumption). discriminate H1.
-Qed.
-Lemma no_reloc_attr l : existsb (mixin_eqb MixinRelocTable) l = false -> existsb (gives AAppTable) l = false.
-Proof.
-  induction l as [|m l IH]; [reflexivity|]. cbn [existsb]. intros H. apply orb_false_iff in H as [H1 H2].
-  rewrite (IH H2). destruct m; try reflexivity. discriminate H1.
-Qed.
-
-(* the certificate-block offset word written by collect_data is the length of the application, and
-   disassemble_image cuts there: what is left is the application (D20: a negative slice here returned a wrong payload) *)
-Theorem disassemble_cuts_collect_lemma c x tzsize st segs tail :
-  (provider c SCollect = Some ExportMixinAppTrustZoneCertBlock /\ provider c SDisassemble = Some ExportMixinAppTrustZoneCertBlock
-   \/ provider c SCollect = Some ExportMixinAppCertBlockManifest /\ provider c SDisassemble = Some ExportMixinAppCertBlockManifest
-      /\ m_cert st <> None) ->
-  nodupb (c_mixins c) = true -> has c MixinApp = true -> has c MixinRelocTable = false -> c_type c <> 0 ->
-  (56 <= length (m_app x))%nat -> (length (m_app x) mod 4 = 0)%nat ->
-  collect c x = Ok segs ->
-  disassemble c tzsize st (flat segs ++ tail) = Ok (set_app st (clean_ivt (m_app x))).
-Proof.
-  intros K ND HA HR T0 L L4 C.
-  pose proof (app_len_no_table c x ND HA HR) as AL.
-  assert (PR : provider c SDisassemblyAppData = None) by (apply no_reloc_provider; exact HR).
-  assert (NT : has_attr c AAppTable = false) by (rewrite has_attr_gives; apply no_reloc_attr; exact HR).
-  assert (SH : exists app' rest, segs = app' :: rest /\ length app' = length (m_app x) /\ rd32 OFF_CRC app' = zlen (m_app x)
-                                 /\ clean_ivt app' = clean_ivt (m_app x)).
-  { unfold collect in C. destruct K as [[K1 K2]|[K1 [K2 K3]]]; rewrite K1 in C.
-    - destruct (m_app x) as [|b t] eqn:Ea; [simpl in L; lia|]. destruct (m_cert x) as [[pre post sg|]|]; try discriminate C.
-      destruct (cert_export _ _) as [cb|]; [cbn [bind] in C|discriminate C].
-      destruct (update_ivt c x (b :: t) _ _) as [app'|] eqn:U; [cbn [bind] in C|discriminate C].
-      unfold reloc_segment in C. rewrite NT in C. cbn [bind app] in C. injection C as <-.
-      exists app'. eexists. split; [reflexivity|].
-      pose proof (update_ivt_length _ _ _ _ _ _ L U) as La. pose proof (ivt_words _ _ _ _ _ _ L U) as (_ & _ & W & _).
-      split; [exact La|]. split; [|eapply clean_update; eassumption].
-      rewrite W. unfold ivt_crc. destruct (Z.eqb_spec (c_type c) 0); [contradiction|]. rewrite AL. reflexivity.
-    - destruct (m_app x) as [|b t] eqn:Ea; [simpl in L; lia|]. destruct (m_cert x) as [cb|]; try discriminate C.
-      destruct (update_ivt c x (b :: t) _ _) as [app'|] eqn:U; [cbn [bind] in C|discriminate C].
-      destruct (cert_export cb 1) as [cbb|]; [cbn [bind] in C|discriminate C].
-      destruct (manifest_export c x 0) as [mf0|]; [cbn [bind] in C|discriminate C].
-      pose proof (update_ivt_length _ _ _ _ _ _ L U) as La. pose proof (ivt_words _ _ _ _ _ _ L U) as (_ & _ & W & _).
-      assert (Q : rd32 OFF_CRC app' = zlen (b :: t)).
-      { rewrite W. unfold ivt_crc. destruct (Z.eqb_spec (c_type c) 0); [contradiction|]. rewrite AL. reflexivity. }
-      destruct (has c MixinManifestCrc).
-      + destruct (manifest_export c x _) as [mf|]; [cbn [bind] in C|discriminate C]. injection C as <-.
-        exists app'. eexists. split; [reflexivity|]. split; [exact La|]. split; [exact Q|eapply clean_update; eassumption].
-      + injection C as <-. exists app'. eexists. split; [reflexivity|]. split; [exact La|]. split; [exact Q|eapply clean_update; eassumption]. }
-  destruct SH as (app' & rest & -> & La & W & CL).
-  assert (CUT : firstn (natz (rd32 OFF_CRC (flat (app' :: rest) ++ tail))) (flat (app' :: rest) ++ tail) = app').
-  { rewrite flat_cons, <- app_assoc. rewrite rd32_app by (rewrite off_crc_eq; lia). rewrite W. unfold natz, zlen. rewrite Nat2Z.id.
-    rewrite <- La. rewrite firstn_app, firstn_all, Nat.sub_diag, firstn_O. apply app_nil_r. }
-  unfold disassemble. destruct K as [[K1 K2]|[K1 [K2 K3]]]; rewrite K2.
-  - rewrite CUT. unfold reloc_cut. rewrite PR. cbn [bind fst snd]. rewrite CL, pad4_id by (rewrite clean_ivt_length; assumption). reflexivity.
-  - destruct (m_cert st) as [cb|]; [|contradiction]. rewrite CUT. unfold reloc_cut. rewrite PR. cbn [bind fst snd].
-    rewrite CL, pad4_id by (rewrite clean_ivt_length; assumption). reflexivity.
-Qed.
